@@ -79,7 +79,14 @@ let c04 (h : shist) : string list =
     if !cur_t >= 0 && List.length !seen = n then begin
       let f = eff_factor h.insts.(0).factor in
       let bound = Array.fold_left max 0 provisioned * f in
-      if !sum > bound then hits := (Printf.sprintf "c04:sum t=%d the instances count %d shared capacity in total, more than %d" !cur_t !sum bound) :: !hits
+      if !sum > bound then hits := (Printf.sprintf "c04:sum t=%d the instances count %d shared capacity in total, more than %d" !cur_t !sum bound) :: !hits;
+      (* the same against the configured SharedCapacity rounded up to whole partitions (not against the number of
+         blobs the code asked for); left to the rule above when the shared capacity is changed on the way *)
+      let has_setshared = List.exists (fun ln -> match ln.w with ["act"; "setshared"; _] -> true | _ -> false) h.lines in
+      let shared = Array.fold_left (fun a (i : sinst) -> max a i.shared) 0 h.insts in
+      let parts = let w = ceil_div shared f in if h.gen = 2 then min 500 w else w in
+      if not has_setshared && !sum > parts * f then
+        hits := (Printf.sprintf "c04:sum-above-shared t=%d the instances count %d shared capacity in total; SharedCapacity %d rounded up to whole partitions of %d is %d" !cur_t !sum shared f (parts * f)) :: !hits
     end;
     sum := 0; seen := [] in
   List.iter (fun ln ->
@@ -286,6 +293,48 @@ let c09 (h : shist) : string list =
                     hits := (Printf.sprintf "c09:stuck-on-one-partition inst=%d t=%d 45 consecutive requests for partition %d came back empty although at least %d partitions are locally free" k ln.t (ios p) !minfree) :: !hits
                 end
             | _ -> ()) h.lines) h.insts;
+  (* the pace of the acquisition loop, on which the bound rests: each attempt costs at most MaxInterval + the latency
+     of the call, whatever the outcomes of the earlier calls.  Virtual time makes this exact: after a lease call has
+     returned (or Start has), while the instance keeps counting fewer partitions than it wants and one it does not
+     count exists, and nothing else happens to it, the next lease call comes less than MaxInterval later *)
+  Array.iteri (fun k (ic : sinst) ->
+      let f = eff_factor ic.factor in
+      let mi = eff_maxint ic.maxint * 1_000_000 in
+      let counted = Hashtbl.create 8 in
+      let provisioned = ref 0 and want = ref 0 and reserved = ref ic.reserved in
+      let since = ref (-1) in       (* the loop has been free to poll since this instant, nothing happened since *)
+      let alive = ref false and reported = ref false in
+      let cond () = Hashtbl.length counted < !want && Hashtbl.length counted < !provisioned in
+      let close t what =
+        if !since >= 0 && !alive && not !reported && cond () && t - !since >= mi then begin
+          reported := true;
+          hits := (Printf.sprintf "c09:slow-poll inst=%d t=%d %s %d ns after the previous call returned at %d, while %d partitions are counted, %d wanted, %d exist and MaxInterval is %d ms" k t what (t - !since) !since (Hashtbl.length counted) !want !provisioned (mi / 1_000_000)) :: !hits
+        end in
+      let rec go = function
+        | [] -> ()
+        | ln :: rest ->
+            if ln.inst = k then begin
+              (match ln.w with
+               | ["lm"; "lease"; _] -> close ln.t "the next lease request comes"; since := -1
+               | ["lm"; "leaseret"; _; _] | ["startret"; "0"] ->
+                   if ln.w = ["startret"; "0"] then alive := true;
+                   (* the state that counts is the one after everything logged at this very instant *)
+                   since := ln.t
+               | ["act"; "giveme"; v] ->
+                   want := ceil_div (max 0 (ios v - !reserved)) f; if !since >= 0 && ln.t > !since then since := -1
+               | ["act"; ("stop" | "crash")] -> close ln.t "no lease request until the instance is stopped,"; alive := false; since := -1
+               | ["act"; "setreserved"; v] -> reserved := ios v; since := -1
+               | ["act"; "probe"] -> ()
+               | ["act"; _] | ["act"; _; _] | ["act"; _; _; _] -> if ln.t > !since then since := -1
+               | ["lm"; "create"; n] -> provisioned := ios n;
+                   Hashtbl.iter (fun p _ -> if p >= ios n then Hashtbl.remove counted p) (Hashtbl.copy counted); since := -1
+               | ["ev"; "allocated"; p] -> Hashtbl.replace counted (ios p) (); if ln.t > !since then since := -1
+               | ["ev"; "released"; p] -> Hashtbl.remove counted (ios p); if ln.t > !since then since := -1
+               | ["ev"; "shutdown"] -> alive := false; since := -1
+               | _ -> ())
+            end;
+            go rest in
+      go h.lines) h.insts;
   (* faults never stop the loop or corrupt the figure: covered by c06 (figure) and the replay (loop keeps going) *)
   List.rev !hits @ c06 h
 
